@@ -300,6 +300,19 @@ def _array_eq(ex, st, args, dest_ty, func, where):
     raise Unsupported("array eq on %r / %r" % (a, b))
 
 
+def _ref_partial_eq(ex, st, args, dest_ty, func, where):
+    """<&T as PartialEq>::eq/ne forwards to T's implementation"""
+    m = re.match(r"^<&(.+) as PartialEq>::(eq|ne)$", func)
+    inner = "<%s as PartialEq>::%s" % (m.group(1), m.group(2))
+    return ex.call(st, None, inner, [ex.deref(st, args[0]), ex.deref(st, args[1])], dest_ty, where)
+
+
+def _partial_ne(ex, st, args, dest_ty, func, where):
+    """PartialEq::ne (provided method) = !eq"""
+    r = ex.call(st, None, func[:-4] + "::eq", args, dest_ty, where)
+    return VBool(simp(z3.Not(r.t)))
+
+
 def install_core(ex):
     A = ex.add_model
     A(r"^<(u\d+|usize|i\d+|isize) as (std::convert::)?From<(u\d+|bool)>>::from$", _int_from, "<uN as From<uM>>::from")
@@ -333,6 +346,8 @@ def install_core(ex):
     A(r" as (std::ops::)?FromResidual<.*>>::from_residual$", _from_residual, "FromResidual::from_residual (error value opaque)")
     A(r"^(std::fmt::|core::fmt::)?Arguments::<'_>::(from_str|new_const|new_v1|new)", _opaque, "fmt::Arguments constructors (opaque)")
     A(r"^core::array::equality::<impl PartialEq.*>::(eq|ne)$|^<\[u8; \d+\] as PartialEq>::(eq|ne)$", _array_eq, "[T; N] == [T; N]")
+    A(r"^<&.+ as PartialEq>::(eq|ne)$", _ref_partial_eq, "<&T as PartialEq> (forwards to T)")
+    A(r"^<[\w:]+ as PartialEq>::ne$", _partial_ne, "PartialEq::ne = !eq (provided method)")
 
 
 # ----------------------------------------------------------------- BTreeMap<PathBuf, V> over a finite ordered universe
@@ -471,6 +486,54 @@ def _sort_ids(ex, st, args, dest_ty, func, where):
     return UNIT
 
 
+def _chain(ex, st, args, dest_ty, func, where):
+    return VStruct("Chain", [args[0], args[1]])
+
+
+def _collect_chain_keys(ex, st, args, dest_ty, func, where):
+    """Chain<Keys, Keys>::collect::<Vec<&PathBuf>>: keys of the first map in order, then of the second"""
+    ch = args[0]
+    arr = z3.K(z3.IntSort(), I(0))
+    n = I(0)
+    for it in ch.f:
+        entries = it.f[0].f[0].items
+        if simp(it.f[1].t).as_long() != 0:
+            raise Unsupported("collect over a partially consumed key iterator")
+        for j, e in enumerate(entries):
+            arr = z3.If(e.f[0].t, z3.Store(arr, n, I(j)), arr)
+            n = simp(z3.If(e.f[0].t, n + 1, n))
+    return VSeq(arr, I(0), n, "usize")
+
+
+def _dedup(ex, st, args, dest_ty, func, where):
+    """Vec::dedup: removes consecutive repeated elements (exact, element by element up to the capacity)"""
+    ref = args[0]
+    s = ex.deref(st, ref)
+    cap = ex.sort_cap
+    ex.oblig("model-bound", where, "dedup: sequence longer than the model capacity %d" % cap, z3.And(st.guard, s.len > cap))
+    out = z3.K(z3.IntSort(), I(0))
+    n = I(0)
+    for i in range(cap):
+        keep = z3.And(i < s.len, (z3.BoolVal(True) if i == 0 else s.at(I(i)) != s.at(I(i - 1))))
+        out = z3.If(keep, z3.Store(out, n, s.at(I(i))), out)
+        n = simp(z3.If(keep, n + 1, n))
+    ex.store_ref(st, ref, VSeq(out, I(0), n, s.elem))
+    return UNIT
+
+
+def _vec_into_iter(ex, st, args, dest_ty, func, where):
+    return VStruct("SliceIter", [args[0], VInt(I(0), "usize")])
+
+
+def _vec_into_iter_next(ex, st, args, dest_ty, func, where):
+    ref = args[0]
+    it = ex.deref(st, ref)
+    s, idx = it.f
+    has = simp(idx.t < s.len)
+    ex.store_ref(st, ref, VStruct("SliceIter", [s, VInt(simp(z3.If(has, idx.t + 1, idx.t)), "usize")]))
+    return opt_sym(has, VRef("val", val=VInt(s.at(idx.t), "usize")))
+
+
 def install_collections(ex, universe, sort_cap):
     ex.universe, ex.sort_cap = universe, sort_cap
     # these must precede the generic into_iter identity model
@@ -485,5 +548,12 @@ def install_collections(ex, universe, sort_cap):
     A(r"^<Vec<PathBuf> as Default>::default$|^<Vec<\(PathBuf, .*\)> as Default>::default$|^Vec::<\(?PathBuf.*>::new$", _vec_default, "Vec<PathBuf>::default/new")
     A(r"^<usize as Default>::default$", _usize_default, "usize::default")
     A(r"^Vec::<PathBuf>::push$", _vec_push_scalar, "Vec<PathBuf>::push")
+    ex.models.insert(0, (re.compile(r"^<Vec<&PathBuf> as IntoIterator>::into_iter$"), _vec_into_iter, "<Vec<&PathBuf> as IntoIterator>::into_iter"))
+    A(r"^<std::collections::btree_map::Keys<'_, .*> as Iterator>::chain::<", _chain, "Iterator::chain")
+    A(r"^<std::iter::Chain<.*Keys.*> as Iterator>::collect::<Vec<&PathBuf>>$", _collect_chain_keys, "Chain<Keys,Keys>::collect::<Vec<&PathBuf>>")
+    A(r"^<Vec<&PathBuf> as (std::ops::)?DerefMut>::deref_mut$", _deref_mut_same, "<Vec<T> as DerefMut>::deref_mut")
+    A(r"^(std|core)::slice::<impl \[&PathBuf\]>::sort(_unstable)?$", _sort_ids, "<[&PathBuf]>::sort_unstable (sorted permutation axioms)")
+    A(r"^Vec::<&PathBuf>::dedup$", _dedup, "Vec::dedup (consecutive duplicates removed)")
+    A(r"^<std::vec::IntoIter<&PathBuf> as Iterator>::next$", _vec_into_iter_next, "vec::IntoIter::next")
     A(r"^<Vec<PathBuf> as (std::ops::)?DerefMut>::deref_mut$", _deref_mut_same, "<Vec<T> as DerefMut>::deref_mut")
     A(r"^std::slice::<impl \[PathBuf\]>::sort$|^core::slice::<impl \[PathBuf\]>::sort$", _sort_ids, "<[PathBuf]>::sort (sorted permutation axioms)")
